@@ -185,6 +185,7 @@ func gen(args []string) {
 	budget := fs.Int("budget", 60, "")
 	closure := fs.Bool("closure", false, "")
 	maplit := fs.Bool("maplit", false, "")
+	illscoped := fs.Int("illscoped", 0, "one in N statements is a scope probe")
 	out := fs.String("out", "cases.ndjson", "")
 	noobs := fs.Bool("noobs", false, "")
 	fs.Parse(args)
@@ -193,6 +194,7 @@ func gen(args []string) {
 	for i := 0; i < *n; i++ {
 		g := ast.NewGen(r, *budget)
 		g.Closure, g.MapLit = *closure, *maplit
+		g.IllScoped = *illscoped
 		prog := g.Program(*depth)
 		hoist := []any{}
 		for _, h := range g.Hoist {
